@@ -290,7 +290,7 @@ func manifest() {
 			"technique":  ps.Technique,
 		})
 	}
-	var na []map[string]string
+	na := []map[string]string{}
 	for i := 1; i <= 20; i++ {
 		id := fmt.Sprintf("C%02d", i)
 		if claimed[id] {
